@@ -293,7 +293,28 @@ extern "C" void h_dbg7()
     auto isEnabled = [&](const QString &mechanism) {
         if (disabled.contains(mechanism)) { da.push_back(mechanism); return false; }
         return true; };
-    auto v = off | views::filter(isEnabled);
+    const QList<QString> &coff = off;
+    auto v = coff | views::filter(isEnabled);
+    int c = 0; for (auto it = v.begin(); it != v.end(); ++it) c++;
+    vp_assert(c <= 3, "C05 dbg");
+}
+extern "C" void h_dbg8()
+{
+    QStringList da; QString x = QStringLiteral("x");
+    if (vp_bool()) da.push_back(x);
+    if (vp_bool()) da.push_back(x);
+    vp_assert(da.size() <= 2, "C05 dbg");
+}
+extern "C" void h_dbg9()
+{
+    QList<QString> off; QString x = QStringLiteral("x");
+    off.append(x); off.append(x); off.append(x);
+    QStringList da;
+    auto isEnabled = [&](const QString &mechanism) {
+        if (vp_bool()) { da.push_back(mechanism); return false; }
+        return true; };
+    const QList<QString> &coff = off;
+    auto v = coff | views::filter(isEnabled);
     int c = 0; for (auto it = v.begin(); it != v.end(); ++it) c++;
     vp_assert(c <= 3, "C05 dbg");
 }
